@@ -46,6 +46,7 @@ class PEval(object):
         self.pidx = dict((p[0], p[3]) for p in self.fn.params)
         self._pfield = None
         self._locals = set(n.ref for n in walk(self.fn.body) if n.k == 'var') | set(p[3] for p in self.fn.params)
+        self.keep_prefixes = ()      # env paths (inputs such as the received frame) that calls do not invalidate
         self.store_filter = None     # optional: (path string, field) -> record the store event?
         self.record_sets = True
 
@@ -339,6 +340,8 @@ class PEval(object):
                 else:
                     fl = set(f for f in flds if f[0] != '*')
                     for k in [k for k in env if k[0] == 'p']:
+                        if self.keep_prefixes and k[1].startswith(self.keep_prefixes):
+                            continue
                         if self._key_hit(k[1], fl):
                             env.pop(k, None)
                 post = self.callvals.get('post:%s#%d' % (name, nth), self.callvals.get('post:%s' % name))
